@@ -73,4 +73,21 @@ def flatTrace : List Ev → List FEv
   | .emit (.node n) :: rest => FEv.emit n :: flatTrace rest
   | _ :: rest => flatTrace rest
 
+/-- `[g, parent g, parent (parent g), …]` (fuel steps) -/
+def ancestors (par : Nat → Nat) : Nat → Nat → List Nat
+  | 0, g => [g]
+  | fuel + 1, g => g :: ancestors par fuel (par g)
+
+/-- Executable form of `LeakFree`: every argument used by an emitted node (or returned by a
+    discovered graph) belongs to the graph the user is scoped in, or to one of its ancestors. -/
+def leakFreeB (p : BuildAlg.Prog) (b : Built) : Bool :=
+  let anc := fun g => ancestors (parent b.owner b.scopeOf) b.graphTopo.length g
+  let ok := fun (c a : Nat) => !p.isArg a || (anc c).any (fun t => (lookupL b.argsOf t).contains a)
+  b.topo.all (fun v => match v with
+    | .node n => match b.scopeOf.get v with
+      | some c => (p.inputs n).all (ok c)
+      | none => true
+    | .src _ => true) &&
+  b.graphTopo.all (fun s => (p.results s).all (ok s))
+
 end Bridge
